@@ -230,7 +230,12 @@ class Impl:
         self.G(s).add_node(self.I(int(n))); return "ok"
 
     def op_attr(self, s, n, a):
-        self.G(s).update_node_attr(self.I(int(n)), a=int(a)); return "ok"
+        # both spellings of the same update: update_node_attr(n, ...) and update_node_attr_from([n], ...)
+        if int(a) % 2:
+            self.G(s).update_node_attr(self.I(int(n)), a=int(a))
+        else:
+            self.G(s).update_node_attr_from([self.I(int(n))], a=int(a))
+        return "ok"
 
     def op_pollute(self, kind):
         """exercise unrelated graphs, readers and writers in this process with legal but unusual arguments;
@@ -732,8 +737,12 @@ class Impl:
                 for b in G._node:
                     v = guard(lambda: G.number_of_interactions(a, b, t))
                     fv = guard(lambda: dn.number_of_interactions(G, a, b, t))
-                    if v != 0 or fv != 0:
-                        pairs["%d,%d" % (C(a), C(b))] = [v, fv]
+                    ent = [v, fv]
+                    if D:
+                        # has_successor(a, b, t): a -> b present; has_predecessor(b, a, t): the same arc seen from b
+                        ent += [guard(lambda: 1 if G.has_successor(a, b, t) else 0), guard(lambda: 1 if G.has_predecessor(b, a, t) else 0)]
+                    if any(x != 0 for x in ent):
+                        pairs["%d,%d" % (C(a), C(b))] = ent
             r["nint2"] = pairs
         return r
 
